@@ -147,6 +147,57 @@ def run(tier, seed):
         if cp._cached_css_compile.cache_info().currsize != 0:
             ck.violation('purge() did not empty the cache', {})
     ck.sample({'history_ops': len(ops), 'distinct_keys': len(knum), 'final_size': size})
+    # ---- pickles cross process boundaries: another interpreter (another string-hash seed) loads them
+    import os, subprocess, sys, tempfile, base64, build
+    xkeys = [k_ for k_ in keys if k_[1] is not None or k_[2] is not None][:25] + keys[:15]
+    blob = []
+    for (p, ns, cu, fl) in xkeys:
+        with warnings.catch_warnings():
+            warnings.simplefilter('ignore')
+            import io, contextlib
+            with contextlib.redirect_stdout(io.StringIO()):
+                c = sv.compile(p, ns, fl, custom=cu)
+        blob.append((p, None if ns is None else dict(ns), cu, fl, base64.b64encode(pickle.dumps(c)).decode()))
+    child = r'''
+import sys, json, pickle, base64, io, contextlib, warnings
+import soupsieve as sv
+warnings.simplefilter('ignore')
+out = []
+for p, ns, cu, fl, b in json.load(open(sys.argv[1])):
+    try:
+        with contextlib.redirect_stdout(io.StringIO()):
+            a = pickle.loads(base64.b64decode(b))
+            f = sv.compile(p, ns, fl, custom=cu)
+        out.append([a == f, hash(a) == hash(f), a in {f}, f in {a}, repr(a.selectors) == repr(f.selectors)])
+    except Exception as ex:
+        out.append(['EXC ' + type(ex).__name__])
+print(json.dumps(out))
+'''
+    tmpd = tempfile.mkdtemp(prefix='c15_')
+    json_path, child_path = os.path.join(tmpd, 'blob.json'), os.path.join(tmpd, 'child.py')
+    __import__('json').dump(blob, open(json_path, 'w'))
+    open(child_path, 'w').write(child)
+    for hs in ('1', '12345'):
+        env = build.env()
+        env['PYTHONPATH'] = build.REPO
+        env['PYTHONHASHSEED'] = hs
+        r = subprocess.run([build.PY, child_path, json_path], env=env, capture_output=True, text=True, timeout=300)
+        try:
+            res = __import__('json').loads(r.stdout.strip().splitlines()[-1])
+        except Exception:
+            ck.violation('loading pickled selectors in another interpreter failed', {'stderr': r.stderr[-500:]})
+            continue
+        for (p, ns, cu, fl, _), o in zip(blob, res):
+            ck.count(('xprocess', ns is None, cu is None, str(o[0])[:3]))
+            if o != [True, True, True, True, True]:
+                ck.violation(f'a selector pickled in one interpreter and loaded in another (PYTHONHASHSEED={hs}) is not interchangeable with a '
+                             f'fresh compile of the same arguments: equal={o[0]}, hash equal={o[1:2]}, set lookups={o[2:4]}',
+                             {'pattern': p, 'namespaces': ns, 'custom': cu, 'flags': fl, 'observed': o,
+                              'replay': 'pickle.dumps(compile(...)) in one process; in another process with a different PYTHONHASHSEED '
+                                        'compare pickle.loads(...) with compile(...) of the same arguments: ==, hash(), set membership'})
+                break
+    import shutil
+    shutil.rmtree(tmpd, ignore_errors=True)
     # ---- values: equality / hash / pickle / copy / immutability
     sv.purge()
     sample = rnd.sample(keys, 150 if tier == 'quick' else 1500)
